@@ -11,7 +11,7 @@ OpsV == {"GoNew", "Sentinel", "Errno", "New", "Newf", "NewfW", "PkgNew", "Unimpl
          "PkgWithMessage", "PkgWithStack", "PkgWrap", "OsPathError", "OsSyscallError", "UWrap",
          "Join", "JoinPkg", "GoJoin", "GoWrap2", "Hop"}
 ShapesV == {<<"w1">>, <<"w1", "SEP", "w2">>, <<"w2", "NL", "w1">>}
-Shapes2V == {<<"w2">>, <<"w3", "SEP", "w1">>}
+Shapes2V == {<<"w2">>, <<"w3", "SEP", "w1">>, <<"w2", "PCT">>}
 \* single-line messages only
 ShapesL == {<<"w1">>, <<"w1", "SEP", "w2">>}
 =============================================================================
